@@ -652,6 +652,10 @@ def gen_mems(rng):
     n = rng.choice([1, 1, 2])
     mems = []
     base = rng.choice([0, 0, 4, 64, 1000, 0x10000000, 0x7FFFFF00, 0x80000000, 12])
+    if FC11A and rng.random() < 0.8:
+        # with FC11a MiniMallocate refuses a memory whose start is not a multiple of an alignment: keep most
+        # starts aligned so that the placement itself stays exercised (the rest exercises the refusal)
+        base = rng.choice([0, 64, 960, 0x10000000, 0x7FFFFF00 // 64 * 64, 0x80000000])
     for i in range(n):
         cap = rng.choice([48, 100, 128, 256, 1000, 65536])
         mems.append([base, cap])
